@@ -259,7 +259,8 @@ Theorem sql_print_parse_roundtrip :
 Proof. exact (fun d e p => sql_roundtrip d e p sql_tables_ok). Qed.
 Print Assumptions sql_print_parse_roundtrip.
 
-(* the laws behind the licensed rotations, in SQLite's semantics, for all values incl. NULL and text *)
+(* the laws behind the licensed rotations, in SQLite's semantics, for all values incl. NULL and text: (+,+) (+,-) (*,*)
+   (AND,AND) (OR,OR) and, on text and NULL, (||,||) *)
 Theorem reassoc_laws : forall q, pair_in q reassoc_ok = true -> rot_ok sop sv sql_ev q.
 Proof. exact reassoc_ok_sound. Qed.
 Print Assumptions reassoc_laws.
